@@ -230,7 +230,28 @@ def hand_scenarios():
                    {"label": "ddd", "inputs": [["f", ["S", "fee", []]]], "logic": ["fn", "echo"]}]}
 
 
+def many_item_scenarios():
+    """forEach over MORE THAN 10 items (index 10 vs index 2), items distinguishable, some objects already present"""
+    C = m.C
+    for n, existing_step in ((11, 2), (13, 3)):
+        names = [f"obj-many-{i}" for i in range(n)]
+        yield {"name": "wf-main", "trigger": {"spec": {"y": 1}}, "subs": {}, "existing": names[::existing_step],
+               "edit": None, "broken": None,
+               "steps": [{"label": "many", "inputs": [["w", C(1)]], "foreach": [C(names), "name"], "logic": ["fn", "res"],
+                          "state": [["many", ["V", []]]]},
+                         {"label": "echo", "inputs": [["w", C(2)]], "foreach": [C([f"it{i}" for i in range(n)]), "item"],
+                          "logic": ["fn", "echo"], "state": [["echo", ["V", []]]]},
+                         {"label": "tail", "inputs": [["d", ["S", "echo", []]]], "logic": ["fn", "echo"]}]}
+    names = [f"obj-all-{i}" for i in range(12)]
+    yield {"name": "wf-main", "trigger": {}, "subs": {}, "existing": list(names), "edit": None, "broken": None,
+           "steps": [{"label": "many", "inputs": [["w", C(1)]], "foreach": [C(names), "name"], "logic": ["fn", "res"],
+                      "state": [["many", ["V", []]]]},
+                     {"label": "tail", "inputs": [["d", ["S", "many", []]]], "logic": ["fn", "echo"]}]}
+
+
 def scenarios(ctx: Ctx):
+    for sc in many_item_scenarios():
+        yield sc
     for c in corpus_cases("C02"):
         yield c["scenario"] if "scenario" in c else c
     for sc in hand_scenarios():
